@@ -166,3 +166,23 @@ Proof.
   match goal with |- context [let* fo := ?X in _] => destruct X as [fo|] end; [|discriminate]. cbn [bind].
   intros H. inversion H; subst. simpl. split; reflexivity.
 Qed.
+
+(* the configured room factor / offset fields: for a course of the problem the view carries the values of the two configured fields of the
+   export's `fields` object when they are numbers (anything else, and a missing field or option, counts as "not configured": the defaults 1.0
+   and 0.0 are applied where the sizes are computed) *)
+Theorem view_course_fields track_id ign_c ff of k c v : view_course track_id ign_c ff of (k, c) = ROk v -> in_problem ign_c v = true ->
+  exists fl, get "fields" c = Some fl /\ cv_fields v = (num_field fl ff, num_field fl of).
+Proof.
+  unfold view_course. destruct (parse_u64 k) as [cid|]; [|discriminate]. cbn [ok_or bind].
+  destruct (parse_course cid c track_id) as [[[[[name st] mn] mx] key]|e]; [|discriminate]. cbn [bind].
+  intros H Hp.
+  destruct st.
+  - (* not offered: not in the problem *)
+    cbn [bind] in H. inversion H; subst. unfold in_problem in Hp. cbn in Hp. discriminate.
+  - destruct ign_c.
+    + cbn [bind] in H. inversion H; subst. unfold in_problem in Hp. cbn in Hp. discriminate.
+    + destruct (match get "fields" c with Some v0 => as_object v0 | None => None end) as [o|] eqn:Eo; [|discriminate H]. cbn [ok_or bind] in H.
+      destruct (get "fields" c) as [fl|] eqn:Ef; [|discriminate Eo]. cbn [bind] in H. inversion H; subst. exists fl. split; reflexivity.
+  - destruct (match get "fields" c with Some v0 => as_object v0 | None => None end) as [o|] eqn:Eo; [|discriminate H]. cbn [ok_or bind] in H.
+    destruct (get "fields" c) as [fl|] eqn:Ef; [|discriminate Eo]. cbn [bind] in H. inversion H; subst. exists fl. split; reflexivity.
+Qed.
